@@ -7,6 +7,8 @@ Model: lean/AioModel/C07.lean; theorems: lean/AioProps/C07.lean.
 """
 import itertools
 
+from .common import c07_session
+
 from .common.c07_pool import Pool
 
 PROPERTY = "C07"
@@ -22,23 +24,28 @@ THEOREMS = [
     "Aio.C07.f8_lost_wakeup_unfixed",
     "Aio.C07.race_lost_wakeup_unfixed",
     "Aio.C07.after_close_leak_unfixed",
+    "Aio.C07.trace_orphan_unfixed",
 ]
 RULE = ("a case = (limit, limit_per_host, key of each of N tasks, label sequence); labels: spawn / tick (one ready "
         "callback) / attempt ok|fail / cancel / connect-timeout / release to pool|close / idle connection lost / connector "
         "close / shuffle order. Generator classes: guided walk over enabled labels, saturate (limit 1, one key, cancels of "
         "woken waiters), per-host (limit_per_host 1, two keys), reuse (pooling, fast path, lost idle connections), close-at-"
-        "any-step, noise (arbitrary labels incl. disabled ones), scripted scenarios; thorough adds the exhaustive exploration "
-        "of every reachable state and transition for N<=3 tasks (all placements of cancel/fail/close). Non-trivial = at "
-        "least one task reached the pool; distinct by content.")
+        "any-step, traced (suspending on_connection_reuseconn/queued_start/queued_end/create_start/create_end callbacks "
+        "resolved by label, any subset), noise (arbitrary labels incl. disabled ones), scripted scenarios; thorough adds the exhaustive exploration "
+        "of every reachable state and transition for N<=3 tasks (all placements of cancel/fail/close). Plus 810 ClientSession-level "
+        "scenarios (limit kind x request body kind x expect100 x scripted peer x how the caller ends the exchange) judged by "
+        "a direct oracle. Non-trivial = at least one task reached the pool; distinct by content.")
 TRUSTED_BASE = [
     "the hand-written model AioModel/C07.lean is tied to connector.py only by trace conformance (state projection after every label)",
     "CPython asyncio semantics assumed by the model: ready callbacks run FIFO; Task.cancel() cancels a pending awaited future or sets "
     "must_cancel; asyncio.timeout converts its own cancellation into TimeoutError (exercised by the correspondence, not proved)",
-    "trace callbacks (extra await points inside connect/_get), keep-alive expiry/_cleanup timers, force_close and SSL abort are not modelled",
+    "keep-alive expiry/_cleanup timers, force_close and SSL abort are not modelled; trace callbacks are modelled as await points "
+    "(one Trace per request, each selected hook suspends once); the ClientSession/ClientResponse layer (release of the Connection "
+    "when the request writer is still pending) is NOT modelled in Lean: 810 session-level scenarios are judged by a direct oracle only",
     "random.shuffle in _release_waiter is replaced by a label-given order (every order is a possible shuffle result)",
 ]
 ASSUMPTIONS = [
-    "theorems are about the model with the four repairs switched on (Fixes.all); for the code as it is (Fixes.none) the "
+    "theorems are about the model with the five repairs switched on (Fixes.all); for the code as it is (Fixes.none) the "
     "deviations are kernel-checked counterexamples and the direct oracle reports them on the real connector",
     "no_forgotten_waiter (global quiescence form) is NOT proved; proved instead: the wake-up step (release_waiter_wakes, "
     "no_forgotten_waiter_partial) for every state; the rest is covered by correspondence + exhaustive small-scope exploration",
@@ -70,17 +77,19 @@ class Judge:
         if self.prev is not None and lab == "k":
             for t, (a, b) in enumerate(zip(self.prev, states)):
                 if a != b:
-                    if a.startswith("W!") and b in ("X", "T"):
+                    if a[0] == "W" and a.endswith("!") and b in ("X", "T"):
                         self.flags.add("woken-waiter-cancelled")
-                    if a == "W" and b == "w":
+                    if a[0] == "W" and b[0] == "w":
                         self.flags.add("woken-waiter-lost-race")
+                    if "~" in a and a.endswith("!") and a[0] in "uc" and b in ("X", "T"):
+                        self.flags.add("cancelled-in-trace-callback")
                     self.last_move = (a, b)
         # (1) limits
         over = (self.limit and total > self.limit) or (self.lph and any(x > self.lph for x in per))
         if over and "limit" not in self.found:
             a, b = getattr(self, "last_move", ("?", "?")) if lab == "k" else ("?", "?")
-            how = ("fastpath-pooled-connection" if a == "s" and b.startswith("h") else
-                   "after-wait-pooled-connection" if a.startswith("W") and b.startswith("h") else
+            how = ("fastpath-pooled-connection" if a == "s" and b[0] in "hu" else
+                   "after-wait-pooled-connection" if a.startswith("W") and b[0] in "hu" else
                    "new-connection-attempt" if b.startswith("c") else "other")
             if p.conn._closed:
                 how = "on-closed-connector"
@@ -93,8 +102,10 @@ class Judge:
             self.closed_seen = True
         if not ready:
             # (2) nobody waits while there is capacity / on a closed connector
+            # a woken waiter still inside an application trace callback holds the wake-up: not quiescent for the pool
+            promised = any(st[0] == "W" and "~" in st for st in states)
             for t, st in enumerate(states):
-                if st == "w":
+                if st == "w" and not (promised and not closed):
                     k = p.keys[t]
                     cap = (not self.limit or total < self.limit) and (not self.lph or per[k] < self.lph)
                     if closed and t in getattr(self, "waiting_at_close", ()):
@@ -120,8 +131,12 @@ class Judge:
                     self.found.setdefault("leak", (idx, ("on-closed-connector" if closed else "+".join(left)),
                                                    f"all requests over, still counted: {left}"))
         # (4) close closes every connection created
-        if closed and any(not tr.closing for tr in p.transports):
-            self.found.setdefault("close-open", (idx, "transport-left-open", "a transport is open after connector close"))
+        # (a connection whose on_connection_create_end callback has not returned yet is still in connect()'s hands)
+        pending_new = {p.created_by[t] for t, (letter, _) in p.trace_wait.items() if letter == "e"}
+        if closed and any(not tr.closing for tr in p.transports if tr.cid not in pending_new):
+            how = ("orphaned-by-cancellation-in-trace-callback" if "cancelled-in-trace-callback" in self.flags
+                   else "transport-left-open")
+            self.found.setdefault("close-open", (idx, how, "a transport is open after connector close"))
         self.prev = states
 
 
@@ -132,7 +147,7 @@ SIG = {"limit": "C07/limit-exceeded/", "stuck": "C07/lost-wakeup/", "parked-clos
 def run_case(case, want_proj=True, observe=None):
     """-> (projections, judge, enabled-at-end)"""
     limit, lph, keys, labels = case["limit"], case["lph"], case["keys"], case["labels"]
-    p = Pool(limit, lph, keys)
+    p = Pool(limit, lph, keys, case.get("mask", 0))
     j = Judge(limit, lph)
     out = []
     try:
@@ -182,17 +197,29 @@ def report(ctx, case, j, budget):
 
 
 # ------------------------------------------------------------------------------- generators
-WEIGHTS = {"k": 4.0, "s": 3.0, "o": 3.0, "f": 0.6, "c": 0.8, "m": 0.3, "r": 1.5, "x": 1.0, "l": 0.3, "C": 0.04}
+WEIGHTS = {"k": 4.0, "s": 3.0, "o": 3.0, "f": 0.6, "c": 0.8, "m": 0.3, "r": 1.5, "x": 1.0, "l": 0.3, "C": 0.04, "t": 3.0}
 PROFILES = {
     "guided": {},
     "saturate": {"c": 2.5, "m": 0.8, "x": 2.0, "r": 0.6, "s": 4.0},
     "perhost": {"c": 1.5, "x": 2.0, "r": 0.8, "s": 4.0, "p": 1.5},
     "reuse": {"r": 4.0, "x": 0.3, "l": 0.8, "s": 4.0},
     "close": {"C": 0.5},
+    "traced": {"s": 5.0, "t": 2.0, "c": 1.2, "r": 2.5},
+    "traced-close": {"C": 0.4, "c": 1.2},
 }
 
 
 def gen_params(rng, profile):
+    """-> (limit, limit_per_host, keys, mask of suspending trace hooks)"""
+    if profile.startswith("traced"):
+        n = rng.randint(2, 5); h = rng.randint(1, 2)
+        mask = rng.choice([31, 31, 8, 1, 2 | 4, 16, rng.randrange(1, 32)])
+        return rng.choice([1, 1, 2, 0]), rng.choice([0, 0, 1]), [rng.randrange(h) for _ in range(n)], mask
+    lim, lph, keys = _gen_params(rng, profile)
+    return lim, lph, keys, (rng.randrange(1, 32) if rng.random() < 0.15 else 0)
+
+
+def _gen_params(rng, profile):
     if profile == "saturate":
         n = rng.randint(3, 6); keys = [0] * n if rng.random() < 0.7 else [rng.randrange(2) for _ in range(n)]
         return rng.choice([1, 1, 2]), rng.choice([0, 0, 1]), keys
@@ -208,10 +235,10 @@ def gen_params(rng, profile):
 
 def walk(rng, profile, judge_cb=None):
     """online guided walk: returns (case, projections, judge)"""
-    limit, lph, keys = gen_params(rng, profile)
+    limit, lph, keys, mask = gen_params(rng, profile)
     nk = max(keys) + 1
     w = dict(WEIGHTS); w.update(PROFILES[profile])
-    p = Pool(limit, lph, keys)
+    p = Pool(limit, lph, keys, mask)
     j = Judge(limit, lph)
     labels, out = [], []
     try:
@@ -226,14 +253,14 @@ def walk(rng, profile, judge_cb=None):
                 if not en:
                     break
                 if rng.random() < 0.04:   # a label that is (probably) disabled: must be a no-op
-                    lab = rng.choice("socmrxl") + str(rng.randrange(len(keys)))
+                    lab = rng.choice("socmrxlt") + str(rng.randrange(len(keys)))
                 else:
                     lab = rng.choices(en, weights=[w[e[0]] for e in en])[0]
             p.do(lab)
             labels.append(lab)
             out.append(p.project())
             j(p, lab, i)
-        return {"limit": limit, "lph": lph, "keys": keys, "labels": labels}, out, j
+        return {"limit": limit, "lph": lph, "mask": mask, "keys": keys, "labels": labels}, out, j
     finally:
         p.dispose()
 
@@ -244,9 +271,10 @@ def noise(rng):
     labs = ["p" + ".".join(map(str, rng.sample(range(h), h)))]
     for _ in range(rng.randint(3, 40)):
         r = rng.random(); t = rng.randrange(n)
-        labs.append("k" if r < 0.3 else rng.choice(["s%d", "s%d", "o%d", "o%d", "f%d", "c%d", "m%d", "r%d", "x%d", "l%d"]) % t
+        labs.append("k" if r < 0.3 else rng.choice(["s%d", "s%d", "o%d", "o%d", "f%d", "c%d", "m%d", "r%d", "x%d", "l%d", "t%d", "t%d"]) % t
                     if r < 0.95 else "C" if r < 0.97 else "p" + ".".join(map(str, rng.sample(range(h), rng.randint(0, h)))))
-    return {"limit": rng.choice([0, 1, 1, 2, 3]), "lph": rng.choice([0, 0, 1, 2]), "keys": keys, "labels": labs}
+    return {"limit": rng.choice([0, 1, 1, 2, 3]), "lph": rng.choice([0, 0, 1, 2]), "mask": rng.choice([0, 0, 31, rng.randrange(32)]),
+            "keys": keys, "labels": labs}
 
 
 def L(s):
@@ -267,11 +295,19 @@ SCRIPTED = [
     {"limit": 2, "lph": 1, "keys": [0, 1, 0, 1], "labels": L("p1.0 s0 s1 s2 s3 k k k k o0 f1 k k k k o2 k r0 r2 k k")},
     {"limit": 1, "lph": 0, "keys": [0, 0], "labels": L("p0 s0 k s1 k m1 k m0 k o0 k")},
     {"limit": 2, "lph": 0, "keys": [0, 0, 1], "labels": L("p0.1 s0 k o0 k r0 l0 s1 k o1 k r1 s2 k C k")},
+    # a pooled connection is being reused; the task is cancelled inside the on_connection_reuseconn callback; close
+    {"limit": 1, "lph": 0, "mask": 1, "keys": [0, 0], "labels": L("p0 s0 k o0 k r0 s1 k c1 k C")},
+    # three requests, one slot, on_connection_create_start suspends: only one may pass the capacity check
+    {"limit": 1, "lph": 0, "mask": 8, "keys": [0, 0, 0], "labels": L("p0 s0 s1 s2 k k k t0 t1 t2 k k k o0 k x0 k k")},
+    {"limit": 0, "lph": 1, "mask": 31, "keys": [0, 0, 0], "labels": L("p0 s0 k t0 k o0 k t0 k s1 s2 k k t1 t2 k k r0 k t1 k t1 k k t2 k")},
+    # woken while still inside on_connection_queued_start; cancelled inside on_connection_queued_end
+    {"limit": 1, "lph": 0, "mask": 6, "keys": [0, 0, 0], "labels": L("p0 s0 k o0 k s1 k s2 k t2 k x0 t1 k c1 k k t2 k")},
 ]
 
 
 def model_line(fx, case):
-    return f"run {fx} {case['limit']} {case['lph']} {'.'.join(map(str, case['keys']))} {' '.join(case['labels'])}"
+    return (f"run {fx} {case['limit']} {case['lph']} {case.get('mask', 0)} {'.'.join(map(str, case['keys']))} "
+            f"{' '.join(case['labels'])}")
 
 
 # ------------------------------------------------------------------------------- which repairs does the tree have?
@@ -285,15 +321,16 @@ def detect_fixes():
     f8 = ",w" not in last(SCRIPTED[1]).split("tasks=")[1].split(" ")[0]
     race = last(SCRIPTED[2]).split("tasks=")[1].split(" ")[0].split(",")[3] != "w"
     close = "host=0 " in last(SCRIPTED[3]) and ",Q," in last(SCRIPTED[3])
-    return "".join("1" if b else "0" for b in (f7, f8, race, close))
+    trclose = "open=0 " in last(SCRIPTED[8])
+    return "".join("1" if b else "0" for b in (f7, f8, race, close, trclose))
 
 
 # ------------------------------------------------------------------------------- exhaustive small scope
-def explore(ctx, fx, limit, lph, keys, perms, budget, max_states):
+def explore(ctx, fx, limit, lph, keys, perms, budget, max_states, mask=0):
     """every reachable state (identified by its full projection + shuffle order) and every transition
     of the real connector for the given tasks; each transition is compared with the model and judged"""
     nk = max(keys) + 1
-    base = {"limit": limit, "lph": lph, "keys": keys}
+    base = {"limit": limit, "lph": lph, "mask": mask, "keys": keys}
     init_lab = "p" + ".".join(map(str, range(nk)))
     seen = {}
     frontier = [[init_lab]]
@@ -302,7 +339,7 @@ def explore(ctx, fx, limit, lph, keys, perms, budget, max_states):
     while frontier and n_states < max_states:
         nxt = []
         for path in frontier:
-            p = Pool(limit, lph, keys)
+            p = Pool(limit, lph, keys, mask)
             try:
                 for lab in path:
                     p.do(lab)
@@ -313,7 +350,7 @@ def explore(ctx, fx, limit, lph, keys, perms, budget, max_states):
             en += ["p" + ".".join(map(str, q)) for q in perms if list(q) != cur_perm]
             for lab in en:
                 case = {**base, "labels": path + [lab]}
-                p = Pool(limit, lph, keys)
+                p = Pool(limit, lph, keys, mask)
                 j = Judge(limit, lph)
                 try:
                     for i, l2 in enumerate(case["labels"]):
@@ -324,7 +361,7 @@ def explore(ctx, fx, limit, lph, keys, perms, budget, max_states):
                 finally:
                     p.dispose()
                 edges.append((case, proj))
-                ctx.case(("x", limit, lph, tuple(keys), tuple(case["labels"])), nontrivial=True)
+                ctx.case(("x", limit, lph, mask, tuple(keys), tuple(case["labels"])), nontrivial=True)
                 if key not in seen:
                     seen[key] = True
                     n_states += 1
@@ -343,7 +380,7 @@ def explore(ctx, fx, limit, lph, keys, perms, budget, max_states):
 def check(ctx):
     rng = ctx.rng
     fx = detect_fixes()
-    ctx.extra["fixes_detected(f7,f8,race,close)"] = fx
+    ctx.extra["fixes_detected(f7,f8,race,close,trclose)"] = fx
     ctx.hit("fixes:" + fx)
     budget = {c: (40 if ctx.quick else 150) for c in SIG}
     cases = []
@@ -351,7 +388,8 @@ def check(ctx):
     for c in SCRIPTED:
         out, j = run_case(c)
         cases.append((c, out, j, "scripted"))
-    plan = [("guided", 900), ("saturate", 700), ("perhost", 700), ("reuse", 500), ("close", 400)]
+    plan = [("guided", 800), ("saturate", 600), ("perhost", 600), ("reuse", 500), ("close", 400), ("traced", 1100),
+            ("traced-close", 400)]
     mult = 1 if ctx.quick else 12
     for prof, n in plan:
         for _ in range(n * mult):
@@ -366,11 +404,15 @@ def check(ctx):
     for i, (c, out, j, prof) in enumerate(cases):
         last = out[-1] if out else ""
         nontriv = "tasks=" in last and any(ch in last.split("tasks=")[1] for ch in "wWVchdXTEQ")
-        ctx.case((c["limit"], c["lph"], tuple(c["keys"]), tuple(c["labels"])), nontrivial=nontriv,
+        ctx.case((c["limit"], c["lph"], c.get("mask", 0), tuple(c["keys"]), tuple(c["labels"])), nontrivial=nontriv,
                  sample={"case": model_line(fx, c)[:160], "last": last} if i % 499 == 0 else None)
         ctx.hit("gen:" + prof)
         for lab in c["labels"]:
             ctx.hit("label:" + lab[0])
+        for o in out:
+            for tok in o.split("tasks=")[1].split(" ")[0].split(","):
+                if "~" in tok:
+                    ctx.hit("trace-hook-suspended:" + tok.split("~")[1][0])
         for st in (last.split("tasks=")[1].split(" ")[0].split(",") if last else []):
             ctx.hit("end-state:" + st.rstrip("!0123456789"))
         for f in j.flags:
@@ -380,6 +422,8 @@ def check(ctx):
         if outs is not None:
             ctx.compare(c, "|".join(out), outs[i], "BaseConnector vs Aio.C07.step (state projection after every label)")
 
+    check_sessions(ctx)
+
     if not ctx.quick:
         scopes = []
         for keys in ([0], [0, 0], [0, 1], [0, 0, 0], [0, 0, 1], [0, 1, 0]):
@@ -387,10 +431,14 @@ def check(ctx):
                 scopes.append((limit, lph, keys))
         complete = True
         tot_s = tot_e = 0
-        for limit, lph, keys in scopes:
+        scopes = [(a, b, c, 0) for a, b, c in scopes]
+        # with suspending trace hooks (every hook; create_start only; queued_start+queued_end)
+        scopes += [(1, 0, [0, 0], 31), (0, 1, [0, 0], 31), (1, 1, [0, 1], 31), (1, 0, [0, 0, 0], 8), (1, 0, [0, 0, 0], 6),
+                   (1, 0, [0, 0, 0], 1)]
+        for limit, lph, keys, mask in scopes:
             nk = max(keys) + 1
             perms = list(itertools.permutations(range(nk))) if nk > 1 else []
-            ns, ne, done = explore(ctx, fx, limit, lph, keys, perms, budget, max_states=12000)
+            ns, ne, done = explore(ctx, fx, limit, lph, keys, perms, budget, max_states=9000, mask=mask)
             tot_s += ns; tot_e += ne
             complete = complete and done
             ctx.hit("explore:" + ("complete" if done else "truncated"))
@@ -399,7 +447,27 @@ def check(ctx):
         ctx.exhaustive = complete
 
 
+def check_sessions(ctx):
+    """ClientSession-level scenarios (direct oracle only, see harness/common/c07_session.py)"""
+    n = 0
+    for sc in c07_session.all_scenarios():
+        obs = c07_session.run_scenario(sc)
+        n += 1
+        ctx.case(("session", tuple(sorted(sc.items()))), nontrivial=obs.get("first") != "timeout",
+                 sample={"session": sc, "obs": {k: v for k, v in obs.items() if k != "steps"}} if n % 271 == 0 else None)
+        ctx.hit("session:first=" + str(obs.get("first")), "session:ending=" + sc["ending"], "session:body=" + sc["body"],
+                "session:peer=" + sc["peer"] + ("+expect100" if sc["expect100"] else ""))
+        for sig, detail in c07_session.judge(sc, obs):
+            ctx.violation("C07/" + sig, {"kind": "session", **sc}, detail)
+    ctx.extra["session_scenarios"] = n
+
+
 def replay(ctx, case):
+    if case.get("kind") == "session":
+        sc = {k: v for k, v in case.items() if k != "kind"}
+        for sig, detail in c07_session.judge(sc, c07_session.run_scenario(sc)):
+            ctx.violation("C07/" + sig, case, detail)
+        return
     _, j = run_case(case, want_proj=False)
     for clause, (idx, how, detail) in j.found.items():
         ctx.violation(SIG[clause] + how, case, detail + f" after label #{idx}")
